@@ -139,8 +139,40 @@ static int twotables(int T_, int K_, unsigned seed) {
     printf("OK twotables\n"); return 0;
 }
 
+/* "bounded": a list limited to M elements holds M-1; T threads released together each add one element: exactly one add may
+   succeed and the list must end up with exactly M elements - the limit test and the insertion are one atomic step. */
+static qlist_t *blist; static pthread_barrier_t bbar; static int brounds; static volatile int bsucc;
+static void *bounded_worker(void *p) {
+    targ *a = p;
+    for (int r = 0; r < brounds; r++) {
+        pthread_barrier_wait(&bbar);                                  /* main has prepared M-1 elements */
+        unsigned long long e = mk(a->t, r);
+        if (blist->addlast(blist, &e, sizeof e)) __sync_fetch_and_add(&bsucc, 1);
+        pthread_barrier_wait(&bbar);                                  /* main inspects */
+    }
+    return NULL;
+}
+static int bounded(int T_, int R_, int M) {
+    T = T_; brounds = R_; pthread_t th[16]; targ a[16];
+    blist = qlist(QLIST_THREADSAFE); blist->setsize(blist, M);
+    pthread_barrier_init(&bbar, NULL, T + 1);
+    for (int t = 0; t < T; t++) { a[t].t = t; pthread_create(&th[t], NULL, bounded_worker, &a[t]); }
+    int bad = 0; long badr = 0, badn = 0;
+    for (int r = 0; r < brounds; r++) {
+        blist->clear(blist); bsucc = 0;
+        for (int i = 0; i < M - 1; i++) { unsigned long long e = i; blist->addlast(blist, &e, sizeof e); }
+        pthread_barrier_wait(&bbar);
+        pthread_barrier_wait(&bbar);
+        if (!bad && (bsucc != 1 || blist->size(blist) != (size_t)M)) { bad = 1; badr = bsucc; badn = (long)blist->size(blist); }
+    }
+    for (int t = 0; t < T; t++) pthread_join(th[t], NULL);
+    if (bad) { printf("FAIL bounded list of %d: %ld concurrent adds succeeded with one place free, size %ld\n", M, badr, badn); return 1; }
+    printf("OK bounded\n"); return 0;
+}
+
 int main(int argc, char **argv) {
     if (argc > 1 && !strcmp(argv[1], "contend")) return contend();
+    if (argc > 4 && !strcmp(argv[1], "bounded")) return bounded(atoi(argv[2]), atoi(argv[3]), atoi(argv[4]));
     if (argc > 4 && !strcmp(argv[1], "twotables")) return twotables(atoi(argv[2]), atoi(argv[3]), (unsigned)atoi(argv[4]));
     kind = argv[1]; T = atoi(argv[2]); K = atoi(argv[3]); seed0 = (unsigned)atoi(argv[4]);
     if (!strcmp(kind, "tree")) cont = qtreetbl(QTREETBL_THREADSAFE);
